@@ -1,5 +1,6 @@
 import EaselModel.Core.Proto
 import EaselModel.Shuffle.Model
+import EaselModel.Shuffle.FloatLaws
 /-! Line-protocol driver for the C18 model (shufflers of esl_randomseq.c / esl_msashuffle.c / esl_vectorops.c). -/
 open EaselModel EaselModel.Proto EaselModel.Random EaselModel.Shuffle
 
@@ -86,6 +87,31 @@ def step (s : S) (line : String) : S × String :=
         let r1 := if r.st.mti ≥ 624 then (r.next).2 else r
         let raw := UInt32.ofNat ((argNat? ws "raw").getD 0)
         fin "ok" { r1 with st := { r1.st with mt := r1.st.mt.setIfInBounds r1.st.mti raw } }
+      else if op == "fplaws" then
+        -- support-only monitor of the trusted binary64 facts (FloatLaws.lean): replay on a copy of the generator, state NOT advanced
+        let ofop := (arg? ws "of").getD ""
+        let showC (c : LawCount) : String := s!"ok checked={c.checked} bad={c.bad}"
+        if ofop == "cmarkov0" || ofop == "cmarkov1" then
+          match argBytes ws "s" with
+          | some a =>
+            if a.any (fun c => !isAlpha c) then (s, "einval")
+            else if ofop == "cmarkov0" then (s, showC (lawsMarkov0 26 (textCodes a) r))
+            else if a.size ≤ 2 then (s, showC {}) else (s, showC (lawsMarkov1 26 (textCodes a) r))
+          | none => (s, "bad-op")
+        else if ofop == "xmarkov0" || ofop == "xmarkov1" then
+          match argBytes ws "s", argNat? ws "K" with
+          | some a, some K =>
+            let codes := digitalCodes (withSent a) a.size
+            if codes.any (fun c => c ≥ K) then (s, "einval")
+            else if ofop == "xmarkov0" then (s, showC (lawsMarkov0 K codes r))
+            else if a.size ≤ 2 then (s, showC {}) else (s, showC (lawsMarkov1 K codes r))
+          | _, _ => (s, "bad-op")
+        else if ofop == "iid" || ofop == "fiid" || ofop == "xiid" || ofop == "xfiid" then
+          let pv := (arg? ws "p").getD "none"
+          if pv == "none" then (s, showC {}) else
+          let p := if ofop == "fiid" || ofop == "xfiid" then bitsList32 pv else bitsList64 pv
+          (s, showC (lawsIid p ((argNat? ws "L").getD 0) r {}))
+        else (s, "bad-op")
       else if op == "sample" then
         match rsqSample ((argNat? ws "flag").getD 0) ((argNat? ws "L").getD 0) r with
         | (some o, r') => fin ("ok " ++ hexA (o.map UInt8.ofNat)) r'
@@ -212,7 +238,9 @@ def step (s : S) (line : String) : S × String :=
           let gap : UInt8 := if (arg? ws "abc").getD "dna" == "amino" then 20 else 4
           let alen := (rows.getD 0 #[]).size
           let rows := rows.map withSent
-          let (o, r') := vShuffle gap ip alen rows rows r; fin (showRows o) r'
+          -- fresh=1: <shuf> is a newly created alignment (0x77 everywhere) instead of a clone of <msa>
+          let fresh := (argNat? ws "fresh").getD 0 == 1 && !ip
+          let (o, r') := vShuffle gap ip alen rows (if fresh then rows.map (fun row => fill row.size) else rows) r; fin (showRows o) r'
         | none => (s, "bad-op")
       else if op == "permute" then
         let nseq := (commaFields ((arg? ws "rows").getD "")).length
@@ -226,7 +254,10 @@ def step (s : S) (line : String) : S × String :=
         let gs2 : Option (Array String) := match get "gs2" with
           | some a => if a.any (· != "~") then some a else none
           | none => none
-        let arrays : Array (Array String) := ((keys.filterMap get) ++ [lens "ss" 1000, lens "sa" 2000, lens "pp" 3000, gs2].filterMap id).toArray
+        let gr2 : Option (Array String) := match get "gr2" with
+          | some a => if a.any (· != "~") then some a else none
+          | none => none
+        let arrays : Array (Array String) := ((keys.filterMap get) ++ [lens "ss" 1000, lens "sa" 2000, lens "pp" 3000, gs2, gr2].filterMap id).toArray
         let (o, r') := permuteSeqOrder arrays nseq r
         let rowStr (i : Nat) : String := "/".intercalate (o.toList.map fun a => a.getD i "?")
         fin ("ok " ++ (if nseq == 0 then "-" else ";".intercalate ((List.range nseq).map rowStr)) ++ " index=ok") r'
